@@ -977,8 +977,7 @@ class CallsMixin:
         fa = st.meta.get('fresh_arrs', set())
         if any(a.get_id() in fa for a in d.arrs):
             st.meta['fresh_arrs'] = set(fa) | {x.get_id() for x in new}
-        self.replace_arrays(st, d.arrs, new)
-        d.arrs = new
+        self.replace_arrays(st, d.arrs, new)       # (d itself is not touched: value objects may be shared with snapshots)
 
     def append(self, st, args, e):
         s = self.ev(st, args[0])
